@@ -317,9 +317,13 @@ def discharge(ob, use_cvc5=True, timeout_ms=None, seed=0):
         if s1.check() == z3.unsat:
             return dict(verdict="discharged", backend="z3", time=time.time() - t0, detail="ground facts sufficed")
     axs = relevant_axioms(ob.assumptions, ob.goal)
-    attempts = [(timeout_ms or Z3_TIMEOUT_MS, seed)] + ([(3 * (timeout_ms or Z3_TIMEOUT_MS), seed + 7)] if RETRY else [])
-    for (tmo, sd) in attempts:
-        s = smt.new_solver(tmo, sd)
+    base = timeout_ms or Z3_TIMEOUT_MS
+    # relevancy level 1 vs 2 changes which instantiations z3 performs; neither dominates, so both are tried
+    attempts = [(base, seed, int(os.environ.get("PYVC_REL1", "2")))]
+    if RETRY:
+        attempts += [(base, seed, 1 if attempts[0][2] == 2 else 2), (3 * base, seed + 7, 2)]
+    for (tmo, sd, rel) in attempts:
+        s = smt.new_solver(tmo, sd, rel)
         for a in axs:
             s.add(a)
         for a in ob.assumptions:
@@ -327,7 +331,7 @@ def discharge(ob, use_cvc5=True, timeout_ms=None, seed=0):
         s.add(z3.Not(ob.goal))
         r = s.check()
         if r == z3.unsat:
-            return dict(verdict="discharged", backend="z3", time=time.time() - t0, detail="" if sd == seed else "second attempt")
+            return dict(verdict="discharged", backend="z3", time=time.time() - t0, detail=f"relevancy={rel} seed={sd}")
         if not (r == z3.unknown and ("timeout" in s.reason_unknown() or "canceled" in s.reason_unknown())):
             break       # saturated or sat: a longer run will not help
     dt = time.time() - t0
